@@ -414,6 +414,12 @@ def make_prog(cfg):
                     tot = 0
                     for _, l in p._layers.values():
                         for k_, v_ in vars(l).items():
+                            if isinstance(v_, torch.futures.Future) or type(v_).__name__ in ('SimFuture', 'Future'):
+                                # a factor still held as the future of its all-reduce is held nevertheless (memory_usage()
+                                # itself has resolved every future it looked at by now)
+                                v_ = v_.wait()
+                                if isinstance(v_, (list, tuple)):
+                                    v_ = v_[0]
                             if isinstance(v_, torch.Tensor):
                                 tot += v_.nelement() * v_.element_size()
                     rec['actual_total'] = tot
